@@ -395,6 +395,18 @@ func c09Compare(cur xsel.Cursor, want *adoc.Doc, quirkUndecl bool) string {
 	if err != nil {
 		return "tree: " + err.Error()
 	}
+	// "in document order": the positions the cursors report must increase along
+	// the walk element < its namespace nodes < its attributes < its children
+	last := -1
+	for _, n := range b.Doc.Nodes {
+		if c, ok := b.ToCur[n]; ok {
+			if p := c.Pos(); p <= last {
+				return fmt.Sprintf("document order: %s reports position %d, which does not follow %d", n.Describe(), p, last)
+			} else {
+				last = p
+			}
+		}
+	}
 	c09Normalise(b.Doc)
 	w := want
 	if got, ws := b.Doc.Canon(), w.Canon(); got != ws {
